@@ -249,7 +249,3 @@ func matchPat(pat, name string) bool {
 	return false
 }
 
-func cmdCheck(args []string) {
-	fmt.Fprintln(os.Stderr, "check: not implemented yet")
-	os.Exit(2)
-}
